@@ -14,13 +14,12 @@
    NOT proved (hence the property is claimed `partial`):
      - that bolero's exhaustive driver enumerates every value of every requested range (an
        external crate; checked per run by comparing outcome SETS with the model's, Sim/Exh.v);
-     - uniqueness of the decision string (no duplicate schedule) for the keyed singleton and
-       for run_hooks as a theorem (proved for stream, keyed stream hooks and the scheduler;
-       otherwise checked bounded: execution count = number of model runs);
+     - (uniqueness of the decision string is now proved for every modelled hook kind, for
+       run_hooks as a whole and for the scheduler choice);
      - the scheduler model [step_choice] is not tied to LaunchedSim::step by a per-run
        correspondence other than end-to-end outcome sets. *)
 From Coq Require Import List Arith Bool NArith Permutation.
-From HV Require Import Sim.Model Sim.PHooks Sim.PTick Sim.PComplete Sim.PCompleteK Sim.PCompleteTick Sim.PUniqueK Sim.ModelTop Sim.PTop.
+From HV Require Import Sim.Model Sim.PHooks Sim.PTick Sim.PComplete Sim.PCompleteK Sim.PCompleteTick Sim.PUniqueK Sim.PUniqueH Sim.ModelTop Sim.PTop.
 Import ListNotations.
 Close Scope N_scope.
 
@@ -132,6 +131,31 @@ Theorem C37_run_hooks_every_combination : forall hs ts,
                       /\ run_hooks hs ds = Ok (hs2, outs, []).
 Proof. exact run_hooks_complete. Qed.
 Print Assumptions C37_run_hooks_every_combination.
+
+(* keyed singleton: the remaining map alone determines the decisions *)
+Theorem C37_ksingle_no_duplicate : forall (A K : Type) keq (m : list (K * list A)) force r last d1 d2
+    rel1 rel2 m' l1 l2 e1 e2 n1 n2,
+  ksingle_loop keq force r m last d1 = Ok (rel1, m', l1, e1, n1) ->
+  ksingle_loop keq force r m last d2 = Ok (rel2, m', l2, e2, n2) ->
+  exists u, d1 = u ++ e1 /\ d2 = u ++ e2 /\ rel1 = rel2 /\ l1 = l2 /\ n1 = n2.
+Proof. intros A K. exact (@ksingle_prefix_unique A K). Qed.
+Print Assumptions C37_ksingle_no_duplicate.
+
+(* every modelled batch hook: same released items + same pending input => same decisions *)
+Theorem C37_every_hook_no_duplicate : forall h force d1 d2 ha hb n1 n2 e1 e2 h2 out fl,
+  distinct_items h ->
+  auto h force d1 = Ok (ha, n1, e1) -> auto h force d2 = Ok (hb, n2, e2) ->
+  release ha = Ok (h2, out, fl) -> release hb = Ok (h2, out, fl) ->
+  exists u, d1 = u ++ e1 /\ d2 = u ++ e2 /\ ha = hb /\ n1 = n2.
+Proof. exact auto_release_unique. Qed.
+Print Assumptions C37_every_hook_no_duplicate.
+
+(* run_hooks as a whole: no schedule of a tick is explored twice *)
+Theorem C37_run_hooks_no_duplicate : forall hs d1 d2 hs2 outs,
+  forallb idle hs = true -> Forall distinct_items hs ->
+  run_hooks hs d1 = Ok (hs2, outs, []) -> run_hooks hs d2 = Ok (hs2, outs, []) -> d1 = d2.
+Proof. exact run_hooks_unique. Qed.
+Print Assumptions C37_run_hooks_no_duplicate.
 
 (* the scheduler (model of LaunchedSim::step's choice): every ready tick and observation is
    chosen by some value, and by only one *)
